@@ -7,6 +7,7 @@ from .rules import c05 as R_c05
 from .rules import cas as R_cas
 from .rules import c10 as R_c10
 from .rules import c06 as R_c06
+from .rules import structs as R_st
 
 Q = ("quick", "thorough")
 T = ("thorough",)
@@ -185,5 +186,22 @@ PROPS = {
         technique="table = vendored reference comparison, typestate (store counting) on CFG, def-use hazard scan, exhaustive truth-table evaluation of a dict literal",
         trusted_base=["ref/riscv_base.json", "ref/x86_cc.json", "vstat.ispecmodel"],
         assumptions=["x86 semantics other than the condition table are out of static reach"],
+    ),
+    "C16": dict(
+        title="Structure definitions encode, decode and lay out like C",
+        explanation=(
+            "Decides sibling-agreement clauses of the structure layer: (R-WALK) all six layout walkers of StructCore (size, __len__, "
+            "unpack, pack, offset_of, offsets) implement the same alignment-then-advance scheme on every non-union path and pass "
+            "psize to every field call; (R-GUARD) hasattr guards test the object that the guarded code then uses; (R-PTYPE) the "
+            "pointer-size type-letter translation is one table across the field classes; (R-LEB) the LEB128 reader and writers use "
+            "the same group/continuation/sign constants and the signed writer's termination inspects the sign bit. Does NOT decide "
+            "agreement with a C compiler for arbitrary definitions nor round-trip equality for all byte strings."
+        ),
+        rules=[(R_st.r_walk, Q), (R_st.r_guard, Q), (R_st.r_ptype, Q), (R_st.r_leb, Q)],
+        level_text="partial: cross-check of sibling implementations (6 walkers, 7 translation sites, 3 LEB128 functions, 10 hasattr guards) on their CFGs; the struct tests never pack a structure with padding or a bit-field",
+        level_note="Trusted: the walker template (cursor = first argument of f.align) and the skip-field idiom (`continue` under a test of the field); cross-class deviations of the pointer-size letter set (VarField/CntField translate only 'P') are listed as undecided because they were not confirmed as defects.",
+        technique="sibling cross-check of functions implementing one scheme (path check on statement CFGs + table agreement)",
+        trusted_base=["vstat.cfg"],
+        assumptions=[],
     ),
 }
